@@ -43,6 +43,101 @@ theorem decompileAll_encodeAll (tt : UInt8) (htt : tt ≠ 0) :
       simp [encodeAll, decompileAll, renderAll, decompile_encode tt htt f, decompileAll_encodeAll tt htt fs]
 end
 
+/-! ### the repair is conservative -/
+
+theorem dnFlag_mono (c : Node) (b : Bool) (h : dnFlag false c = some b) : dnFlag true c = some b := by
+  unfold dnFlag at *
+  cases hv : valueOf c <;> simp only [hv] at h ⊢ <;> try exact h
+  split at h <;> simp at h
+
+theorem extLoop_mono : ∀ (cs : List Node) (a r : ExtAcc), extLoop false cs a = some r → extLoop true cs a = some r
+  | [], a, r, h => by simpa [extLoop] using h
+  | c :: cs, a, r, h => by
+    unfold extLoop at h ⊢
+    by_cases h1 : c.tag = 1
+    · simp only [h1, if_true] at h ⊢; exact extLoop_mono cs _ r h
+    · by_cases h2 : c.tag = 2
+      · simp only [h1, h2, if_false, if_true] at h ⊢; exact extLoop_mono cs _ r h
+      · by_cases h3 : c.tag = 3
+        · simp only [h1, h2, h3, if_false, if_true] at h ⊢; exact extLoop_mono cs _ r h
+        · by_cases h4 : c.tag = 4
+          · simp only [h1, h2, h3, h4, if_false, if_true] at h ⊢
+            cases hd : dnFlag false c with
+            | none => simp [hd] at h
+            | some b =>
+              rw [dnFlag_mono c b hd]
+              simp only [hd, Option.bind_some] at h ⊢
+              exact extLoop_mono cs _ r h
+          · simp only [h1, h2, h3, h4, if_false] at h ⊢; exact extLoop_mono cs _ r h
+
+theorem leaf_mono (t : Nat) (kids : List Node) (data s : Bytes) (h : leaf false t kids data = some s) :
+    leaf true t kids data = some s := by
+  unfold leaf at h ⊢
+  by_cases h9 : t = 9
+  · subst h9
+    simp only [show (9 : Nat) ≠ 3 by decide, show (9 : Nat) ≠ 4 by decide, show (9 : Nat) ≠ 5 by decide,
+      show (9 : Nat) ≠ 6 by decide, show (9 : Nat) ≠ 7 by decide, show (9 : Nat) ≠ 8 by decide, if_false, if_true] at h ⊢
+    cases he : extLoop false kids {} with
+    | none => simp [he] at h
+    | some r => rw [extLoop_mono kids {} r he]; simpa [he] using h
+  · simp only [h9, if_false] at h ⊢; exact h
+
+mutual
+/-- the repair (decoding the dnAttributes flag before decompiling) only turns errors into answers: whatever the
+    pre-fix pipeline delivered as the filter string, the repaired one delivers too -/
+theorem decompile_mono : ∀ (n : Node) (s : Bytes), decompile false n = some s → decompile true n = some s
+  | .prim c t content, s, h => by
+    unfold decompile at h ⊢
+    by_cases h0 : t = 0
+    · simpa [h0] using h
+    · by_cases h1 : t = 1
+      · simpa [h0, h1] using h
+      · by_cases h2 : t = 2
+        · simp [h0, h1, h2] at h
+        · simp only [h0, h1, h2, if_false] at h ⊢
+          cases hl : leaf false t [] content with
+          | none => simp [hl] at h
+          | some x => rw [leaf_mono t [] content x hl]; simpa [hl] using h
+  | .cons c t kids, s, h => by
+    unfold decompile at h ⊢
+    by_cases h0 : t = 0
+    · simp only [h0, if_true] at h ⊢
+      cases ha : decompileAll false kids with
+      | none => simp [ha] at h
+      | some x => rw [decompileAll_mono kids x ha]; simpa [ha] using h
+    · by_cases h1 : t = 1
+      · simp only [h0, h1, if_false, if_true] at h ⊢
+        cases ha : decompileAll false kids with
+        | none => simp [ha] at h
+        | some x => rw [decompileAll_mono kids x ha]; simpa [ha] using h
+      · by_cases h2 : t = 2
+        · simp only [h0, h1, h2, if_false, if_true] at h ⊢
+          cases ha : decompileFirst false kids with
+          | none => simp [ha] at h
+          | some x => rw [decompileFirst_mono kids x ha]; simpa [ha] using h
+        · simp only [h0, h1, h2, if_false] at h ⊢
+          cases hl : leaf false t kids (serAll kids) with
+          | none => simp [hl] at h
+          | some x => rw [leaf_mono t kids _ x hl]; simpa [hl] using h
+theorem decompileFirst_mono : ∀ (ks : List Node) (s : Bytes), decompileFirst false ks = some s → decompileFirst true ks = some s
+  | [], s, h => by simp [decompileFirst] at h
+  | k :: _, s, h => by
+    unfold decompileFirst at h ⊢
+    exact decompile_mono k s h
+theorem decompileAll_mono : ∀ (ks : List Node) (s : Bytes), decompileAll false ks = some s → decompileAll true ks = some s
+  | [], s, h => by simpa [decompileAll] using h
+  | k :: ks, s, h => by
+    unfold decompileAll at h ⊢
+    cases hk : decompile false k with
+    | none => simp [hk] at h
+    | some a =>
+      rw [decompile_mono k a hk]
+      simp only [hk] at h ⊢
+      cases hr : decompileAll false ks with
+      | none => simp [hr] at h
+      | some b => rw [decompileAll_mono ks b hr]; simpa [hr] using h
+end
+
 /-! ### assertion values survive: `escape` has a left inverse -/
 
 def unhexDigit (c : UInt8) : Nat := if c.toNat ≤ 57 then c.toNat - 48 else c.toNat - 87
